@@ -271,8 +271,24 @@ theorem epprun_units (p : EPPistonRun.P) (x t M L T : ℝ) (hM : 0 < M) (hL : 0 
   have e3 : EPPistonRun.c3 (runScale p M L T) (L * x) (T * t) ↔ EPPistonRun.c3 p x t := by
     simp only [epv_cond, runScale]
     rw [show p.wv_el * (L / T) * (T * t) = L * (p.wv_el * t) by field_simp, mul_lt_mul_iff_right₀ hL]
-  simp only [epv_tree, e0, e1, e2, e3]
-  split_ifs <;> (refine ⟨rfl, rfl, ?_, ?_, ?_, ?_, ?_, ?_⟩ <;> simp only [epv_leaf, runScale] <;> ring1)
+  simp only [epv_tree]
+  by_cases h0 : EPPistonRun.c0 p x t
+  · simp only [if_pos h0, if_pos (e0.mpr h0)]
+    refine ⟨rfl, rfl, ?_, ?_, ?_, ?_, ?_, ?_⟩ <;> ring1
+  simp only [if_neg h0, if_neg (mt e0.mp h0)]
+  by_cases h1 : EPPistonRun.c1 p x t
+  · simp only [if_pos h1, if_pos (e1.mpr h1)]
+    refine ⟨rfl, rfl, ?_, ?_, ?_, ?_, ?_, ?_⟩ <;> simp only [epv_leaf, runScale] <;> ring1
+  simp only [if_neg h1, if_neg (mt e1.mp h1)]
+  by_cases h2 : EPPistonRun.c2 p x t
+  · simp only [if_pos h2, if_pos (e2.mpr h2)]
+    by_cases h3 : EPPistonRun.c3 p x t
+    · simp only [if_pos h3, if_pos (e3.mpr h3)]
+      refine ⟨rfl, rfl, ?_, ?_, ?_, ?_, ?_, ?_⟩ <;> simp only [epv_leaf, runScale] <;> ring1
+    · simp only [if_neg h3, if_neg (mt e3.mp h3)]
+      refine ⟨rfl, rfl, ?_, ?_, ?_, ?_, ?_, ?_⟩ <;> simp only [epv_leaf, runScale] <;> ring1
+  · simp only [if_neg h2, if_neg (mt e2.mp h2)]
+    refine ⟨rfl, rfl, ?_, ?_, ?_, ?_, ?_, ?_⟩ <;> simp only [epv_leaf, runScale] <;> ring1
 
 end
 
